@@ -4,7 +4,7 @@ CONSTANTS MaxN
 Rows == {<<1, 0>>, <<0, 1>>, <<1, 2>>, <<-1, 3>>}
 GSmall == {[j |-> j, r |-> r] : j \in {-2, 0, 3}, r \in {<<0, 1>>, <<1, 1>>, <<-3, 1>>, <<1, 2>>, <<-7, 4>>}}
 GHuge == {[j |-> 0, r |-> <<300, 1>>], [j |-> 0, r |-> <<-125, 1>>]}           \* residuals of hundreds of sigma
-GScale == {[j |-> 40, r |-> <<0, 1>>], [j |-> 0 - 40, r |-> <<0, 1>>]}            \* uncertainties of 2^40 and 2^-40 (any scale)
+GScale == {[j |-> 40, r |-> <<0, 1>>], [j |-> 0 - 40, r |-> <<0, 1>>], [j |-> 6, r |-> <<0, 1>>], [j |-> 6, r |-> <<3, 1>>]}            \* uncertainties of 2^+-40 (any scale) and 64 (a whole number, also handed over in narrow integer types)
 GData == GSmall \cup GHuge \cup GScale
 LData == {[j |-> j, q |-> q] : j \in {-2, 0, 3}, q \in {<<"rat", 1, 1>>, <<"rat", 2, 1>>, <<"rat", 1, 3>>, <<"rat", 5, 2>>,
                                                          <<"pow2", 40>>, <<"pow2", -40>>, <<"pow2", 600>>, <<"pow2", -1100>>, <<"pow2", 1100>>}}
